@@ -33,7 +33,8 @@ PAIRS = [f"pair:{p}{s}{c}" for p in fm.BINOPS for s in "LR" for c in fm.BINOPS]
 REQUIRED_BUCKETS = ["mode:string", "mode:builder", "mode:api", "mode:api3", "redundant-parens", "same-engine-twice",
                     "api-min-max", "api-consumption-production", "api-constant", "subexpression-zero", "mode:builderx",
                     "builder-clip-step", "inputs-begin-at-different-times",
-                    "distinct-engines-with-the-same-name", "mode:pool", "api-nested-builds"] + PAIRS
+                    "distinct-engines-with-the-same-name", "mode:pool", "api-nested-builds",
+                    "input-without-a-sample-for-one-timestamp"] + PAIRS
 REQUIRED_COUNTERS = ["rounds_compared", "programs_run", "rounds_with_division_by_zero"]
 ASSUMPTIONS = ["inputs finite; outputs compared per input timestamp; one output per input vector"]
 
@@ -85,6 +86,9 @@ def gen(rng: Any, tier: str, i: int) -> Any:
         pre[rng.choice(used)] = 0  # (a stream the formula reads: otherwise the older timestamps are legitimate outputs)
         if any(pre[i] for i in used):
             prog["prelude"] = pre
+    if mode != "api3" and nleaf >= 2 and rng.random() < 0.2:
+        # lock-step lost mid-stream: one input the formula reads has no sample for one timestamp
+        prog["gap"] = [rng.randint(1, len(vecs) - 2), rng.choice(sorted(set(_leaves(ast, []))))]
     return prog
 
 
@@ -221,6 +225,16 @@ def check(prog: dict[str, Any], rec: Any) -> None:
     shown = []
     for k, vec in enumerate(prog["vectors"]):
         vals = [F(x) for x in vec]
+        if prog.get("gap") and prog["gap"][0] == k:
+            # an input is missing altogether for this timestamp: nothing can be emitted for it, and the following
+            # timestamps are unaffected
+            got = out["rounds"][k] if k < len(out["rounds"]) else []
+            rec.bucket("input-without-a-sample-for-one-timestamp")
+            if got:
+                rec.violation("output-for-a-timestamp-one-input-never-delivered",
+                              {"program": prog.get("src") or fm_repr(ast), "round": k, "gap": prog["gap"],
+                               "outputs": [(str(t), v) for t, v in got]})
+            continue
         if fm.div_by_zero_somewhere(ast, vals):
             # a divisor that is exactly zero by construction: the expression has no value, and no number may be
             # emitted for it (exactly one sample, value None)
